@@ -28,7 +28,7 @@ T = {
    "Generated documents are read via Next/All/Unmarshal-slice/Decoder.Decode through string, one-byte, chunked and data-with-EOF readers and compared with an independent line model; the keys(Values)==set(Order) invariant is monitored on corrupted and raw inputs (thorough: native fuzzing).",
    "independent 40-line reference reader"),
  "C08": ("exploration", "runtime write->read monitor, output-line invariant scanner and multi-cycle growth monitor",
-   "Paragraphs from line sequences are written and read back, the written bytes are scanned for blank lines, documents are cycled 4 times, encoder sequences are counted.",
+   "Paragraphs from line sequences (incl. lines over 4 KiB) are written and read back, the written bytes are scanned for blank lines, documents are cycled 4 times, encoder call sequences (struct, pointer, slice, empty slice, all-omitted struct) are counted. Thorough adds a native fuzz target on the cycle.",
    "values with an empty first line followed by more lines are excluded (see DESIGN C08) and pinned as known findings"),
  "C09": ("exploration", "reflective marshal/unmarshal round-trip monitor on probe structs; pass-through key-order model",
    "A reflection-driven generator fills probe structs covering each kind x tag combination; Marshal->Unmarshal must be identity, omitted/required rules and unknown-field pass-through are checked.",
@@ -52,19 +52,19 @@ T = {
    "Structured corruption of valid archives (every header column, every truncation offset, duplicates) with a hard logical step bound of len/60+1 header reads; thorough adds native fuzzing.",
    "third-party xz/lzma/bz2/zstd decoders excluded as the property says"),
  "C16": ("fault_enumeration", "corruption/decoy enumeration with differential verification over the members the loader exposed; range-logging ReaderAt",
-   "Every byte of the signed members and the signature is flipped; decoy control.*/data.* members are inserted at every position and each archive is loaded repeatedly because member choice iterates a Go map.",
+   "Every byte of the signed members and the signature is flipped; decoy control.*/data.* members and near-miss names (data-old.tar, xcontrol.tar) are inserted at every position and each archive is loaded 40 times because member choice iterates a Go map; what the loader exposed (control paragraph, payload listing, extensions) is compared with the signed members; sequences of checks (good keyring, unrelated, empty, absent/prefix roles, good again) run on one loaded Deb.",
    "trusts golang.org/x/crypto/openpgp"),
  "C17": ("fault_enumeration", "changelog entry-list model differential + every-prefix truncation monitor",
    "Generated changelogs must parse to the model; every prefix must give either an error or exactly the entries complete in it.",
    "entry-list model; dpkg-parsechangelog validates the generator in thorough"),
  "C18": ("exploration", "panic/fatal/CPU-budget/determinism monitors on hostile inputs; Go race detector on concurrent calls",
-   "All parser entry points are driven with generator outputs and mutants; value-xor-error, repeat determinism and 16-goroutine concurrent determinism are checked in a -race build whose report blocks are counted.",
+   "All parser entry points (and the accessors derived from typed documents) are driven with generator outputs and mutants; value-xor-error, repeat determinism, receiver-reuse and result-aliasing independence, and 16-goroutine concurrent determinism (concurrent round first, on never-seen names) are checked in a -race build whose report blocks are counted; a non-returning call is cut by a per-case stall watchdog and confirmed under a 60 s CPU limit. Thorough adds a native fuzz target.",
    "hang = no return within 60 CPU-seconds on one <=64KiB input"),
  "C19": ("exploration", "graph-level order monitor against a model effective-edge graph",
    "Random acyclic/cyclic build-dependency graphs rendered as multi-binary .dsc text; any topological order of the model's effective edges is accepted, cycles must error, repeated runs agree.",
    "model edge = first non-substvar alternative admitted for the architecture"),
  "C20": ("fault_enumeration", "inotify order monitor, tree snapshots, environmental and strace-injected syscall faults",
-   "Copy/Move/Remove on .dsc/.changes with k referenced files; a failure is injected at each file and at the control file; inotify event order, pre/post tree hashes and hostile listed names are checked.",
+   "Copy/Move/Remove on .dsc/.changes with k referenced files; a failure is injected at each file and at the control file (missing source, occupied/missing destination, RLIMIT_FSIZE cut of the control-file copy, fresh and pre-populated destinations); inotify event order, pre/post tree hashes, hostile listed names (also only in checksum fields) and second operations on the same handle are checked. Thorough adds an strace dry-run order/path monitor and copy_file_range/rename/unlink failures at every index.",
    "Linux inotify/strace semantics"),
 }
 
